@@ -98,7 +98,7 @@ def plan(tier, seed):
     return [dict(fam="ops", k=1, maxops=4), dict(fam="ops", k=2, maxops=4),
             dict(fam="ops", k=3, maxops=4), dict(fam="ops", k=4, maxops=3),
             dict(fam="ops", k=5, maxops=2, restricted=True),
-            dict(fam="ops", k=6, maxops=2, restricted=True, win=(0, 8)),
+            dict(fam="ops", k=6, maxops=2, restricted=True, win=(0, 16)),
             dict(fam="annot", space="k2", options=9),
             dict(fam="annot", space="k3", options=6)]
 
